@@ -80,3 +80,45 @@ def double_negation_stratum(ctx, d, n):
         pattern = rng.choice([[nn, G[1]], [nn, b], [nn, c], [e, nn, b], [nn], [nn, G[1], G[-1]]])
         d.run_pattern(pattern, "base", True)
         ctx.event("double_negation_probes")
+
+
+def same_stat_probe(ctx, ws, n=4, binary=False):
+    """An input file rewritten IN PLACE with other content of the same byte length and with its modification time restored (a
+    timestamp-pinned rebuild at another base address): the next operation on that path reports the new content."""
+    import os
+    from . import real
+    rng = ctx.rng
+    for _ in range(n):
+        k = rng.randint(3, 9)
+        base_a, base_b = rng.sample([0x401000, 0x501000, 0x601000, 0x701000, 0x40a000], 2)
+
+        def text(base):
+            rows = []
+            for j in range(k):
+                rows.append(f"  {base + j:x}:\t90                   \tnop")
+            rows.append(f"  {base + k:x}:\tc3                   \tret")
+            return "\n".join(rows) + "\n"
+        if binary:
+            from . import elf
+            code = bytes([0x90] * k + [0xC3])
+            A = elf.build([elf.Section(".text", code, base_a)], 64, None)
+            B = elf.build([elf.Section(".text", code, base_b)], 64, None)
+        else:
+            A, B = text(base_a), text(base_b)
+        if len(A) != len(B):
+            continue
+        path = ws.write("same_stat.bin" if binary else "same_stat.s", A)
+        rule = ws.write("same_stat.yaml", "config:\n  mnemonics-full-match: true\npattern:\n  - nop\n  - ret\n")
+        r1 = real.match(rule, path, binary=binary, ret="list", search="all", only_addr=True)
+        st = os.stat(path)
+        with open(path, "wb" if binary else "w") as f:
+            f.write(B)
+        os.utime(path, ns=(st.st_atime_ns, st.st_mtime_ns))
+        r2 = real.match(rule, path, binary=binary, ret="list", search="all", only_addr=True)
+        ctx.ran(2)
+        ctx.event("same_stat_rewrites_judged")
+        want1, want2 = [format(base_a + k - 1, "x")], [format(base_b + k - 1, "x")]
+        if r1[0] != "ok" or r2[0] != "ok" or list(r1[1]) != want1 or list(r2[1]) != want2:
+            ctx.disagreement({"same_stat": True, "binary": binary, "k": k, "bases": [base_a, base_b]},
+                             f"{'object' if binary else 'listing'} rewritten in place (same length, same mtime): first content reports {str(r1[1:2])[:60]} (expected {want1}), "
+                             f"second content reports {str(r2[1:2])[:60]} (expected {want2})")
